@@ -355,6 +355,11 @@ impl<H: Host> ZXController<H> {
         }
     }
 
+    /// Enables 128K paging again after it was locked by bit 5 of port 0x7FFD (machine reset)
+    pub(crate) fn unlock_paging(&mut self) {
+        self.paging_enabled = self.machine == ZXMachine::Sinclair128K;
+    }
+
     pub fn read_7ffd(&self) -> u8 {
         self.current_port_7ffd
     }
